@@ -11,7 +11,9 @@ FAST, NETWORK, MOTIFS = 0, 1, 2
 TAGNAME = {0: "fast", 1: "network", 2: "motifs"}
 VIAS = ["direct", "factory", "main"]
 ERR = {1: "IndexError", 2: "ValueError", 3: "TypeError", 9: "Unsupported"}
-UNKNOWN_NAME = 999999
+UNKNOWN_NAME = 4094
+BAD = 4095          # sentinel for 'not a small natural number' (the model's nat is unary: keep numbers small)
+NAT_MAX = 4000
 
 # builder codes (Model/Gen.v builder_of_code)
 CLIQUE, CYCLE, DIAMOND, BARE, PATH2, STAR, NONE, PATH2L = 0, 1, 2, 3, 4, 5, 6, 7
@@ -178,71 +180,215 @@ def construct(case, builders, names):
     return GCMAlgorithmMain.load_gcm_algorithm(params)
 
 
-def run_real(case, script, patched=False):
-    """one run of the real generator under `script`; returns the observation dict.
-    Exceptions propagate (after the oracle state is restored)."""
-    from gcmpy.names.network_names import NetworkNames
-    tag = case["tag"]
-    log = []
+class Runner:
+    """holds ONE algorithm object and ONE jds list object; every step of a history runs on them"""
 
-    def wrap(j, code):
-        fn = py_builder(code)
+    def __init__(self, case):
+        self.case = case
+        self.log = []
+        self.alg = None
+        self.jds_obj = []
+        self.last_out = None
+        tag = case["tag"]
 
-        def cb(vs):
-            entry = [j, [enc_raw(v) for v in vs], None]
-            log.append(entry)
-            r = fn(vs)
-            entry[2] = shape_of(r)
-            return r
-        return cb
+        def wrap(j, code):
+            fn = py_builder(code)
 
-    builders = [wrap(j, c) for j, c in enumerate(case["codes"])]
-    if tag == MOTIFS:
-        names = []
-        for j, nms in enumerate(case["names"]):
-            code = case["codes"][j] if j < len(case["codes"]) else None
-            if code == BARE:
-                names.append((lambda s: (lambda: s))(name_str(nms[0]) if nms else "n0"))
+            def cb(vs):
+                entry = [j, [enc_raw(v) for v in vs], None]
+                self.log.append(entry)
+                r = fn(vs)
+                entry[2] = shape_of(r)
+                return r
+            return cb
+
+        self.builders = [wrap(j, c) for j, c in enumerate(case["codes"])]
+        if tag == MOTIFS:
+            names = []
+            for j, nms in enumerate(case["names"]):
+                code = case["codes"][j] if j < len(case["codes"]) else None
+                if code == BARE:
+                    names.append((lambda s: (lambda: s))(name_str(nms[0]) if nms else "n0"))
+                else:
+                    names.append((lambda t: (lambda: t))(tuple(name_str(c) for c in nms)))
+        else:
+            names = [name_str(nms[0]) if nms else "n0" for nms in case["names"]]
+        self.names = names
+        self.names_before = list(names)
+        self.params_snapshot = None
+
+    def snapshot(self):
+        a = self.alg
+        return [repr(getattr(a, "_motif_sizes", None)), repr(getattr(a, "_motif_indices", None)),
+                len(getattr(a, "_build_functions", []) or []), [x is y for x, y in zip(self.names, self.names_before)],
+                len(self.names)]
+
+    def damage_last(self):
+        """what a caller may legitimately do with a returned object before generating again"""
+        out = self.last_out
+        if out is None:
+            return
+        try:
+            if hasattr(out, "G"):
+                out.G.add_edge(0, 0)
+                out.G.graph["seen"] = True
             else:
-                names.append((lambda t: (lambda: t))(tuple(name_str(c) for c in nms)))
-    else:
-        names = [name_str(nms[0]) if nms else "n0" for nms in case["names"]]
-    jds = [tuple(r) for r in case["jds"]]
-    jds_before = [tuple(r) for r in jds]
-    if patched:      # the caller already holds strict_scripted(script)
-        alg = construct(case, builders, names)
-        out = alg.random_clustered_graph(jds)
-    else:
-        with strict_scripted(script):
-            alg = construct(case, builders, names)
-            out = alg.random_clustered_graph(jds)
-    obs = {
-        "calls": [[e[0], e[1]] for e in log],
-        "results": [[e[0], e[2]] for e in log],
-        "shuffles": [[list(a), list(p)] for (_, a, p) in script.log],
-        "script_left": len(script.answers) - script.pos,
-        "input_jds_intact": [tuple(r) for r in jds] == jds_before,
-    }
-    if tag == NETWORK:
-        G = out.G
-        obs["nodes"] = sorted(enc_raw(n) for n in G.nodes())
-        obs["jds_out"] = [enc_raw(G.nodes[n].get(NetworkNames.JOINT_DEGREE, -1)) for n in sorted(G.nodes())]
-        es = []
-        for u, v in G.edges():
-            d = G.edges[u, v]
-            es.append([min(u, v), max(u, v), name_code(d.get(NetworkNames.TOPOLOGY)), enc_raw(d.get(NetworkNames.MOTIF_IDS, -1))])
-        obs["net_edges"] = sorted(es)
-    else:
-        obs["edges"] = [enc_raw(e) for e in out.edge_list]
-        obs["names"] = [name_code(s) for s in out.topologies]
-        obs["ids"] = [enc_raw(i) for i in out.motif_id]
-        obs["jds_out"] = enc_raw(list(out.joint_degrees)) if isinstance(out.joint_degrees, (list, tuple)) else -1
-    return obs
+                out.edge_list.append((0, 0))
+                out.topologies.clear()
+                out.motif_id.append(77)
+        except Exception:  # noqa: BLE001
+            pass
+
+    def step(self, jds_rows, script, patched=False, rows="tuple"):
+        from gcmpy.names.network_names import NetworkNames
+        case = self.case
+        tag = case["tag"]
+        mk = tuple if rows == "tuple" else list
+        self.jds_obj[:] = [mk(r) for r in jds_rows]          # the SAME list object, new contents
+        jds = self.jds_obj
+        jds_before = [mk(r) for r in jds]
+        types_before = [type(r) for r in jds]
+        del self.log[:]
+        self.damage_last()
+
+        def go():
+            if self.alg is None:
+                self.alg = construct(case, self.builders, self.names)
+                self.params_snapshot = self.snapshot()
+            return self.alg.random_clustered_graph(jds)
+        if patched:      # the caller already holds the patched random module
+            out = go()
+        else:
+            with strict_scripted(script):
+                out = go()
+        self.last_out = out
+        log = self.log
+        obs = {
+            "calls": [[e[0], e[1]] for e in log],
+            "results": [[e[0], e[2]] for e in log],
+            "shuffles": [[list(a), list(p)] for (_, a, p) in script.log],
+            "script_left": len(script.answers) - script.pos,
+            "input_jds_intact": (list(jds) == jds_before and [type(r) for r in jds] == types_before
+                                 and self.snapshot() == self.params_snapshot),
+        }
+        if tag == NETWORK:
+            G = out.G
+            obs["nodes"] = sorted(enc_raw(n) for n in G.nodes())
+            obs["jds_out"] = [enc_raw(G.nodes[n].get(NetworkNames.JOINT_DEGREE, -1)) for n in sorted(G.nodes())]
+            es = []
+            for u, v in G.edges():
+                d = G.edges[u, v]
+                es.append([min(u, v), max(u, v), name_code(d.get(NetworkNames.TOPOLOGY)),
+                           enc_raw(d.get(NetworkNames.MOTIF_IDS, -1))])
+            obs["net_edges"] = sorted(es)
+        else:
+            obs["edges"] = [enc_raw(e) for e in out.edge_list]
+            obs["names"] = [name_code(s) for s in out.topologies]
+            obs["ids"] = [enc_raw(i) for i in out.motif_id]
+            obs["jds_out"] = enc_raw(list(out.joint_degrees)) if isinstance(out.joint_degrees, (list, tuple)) else -1
+        return obs
 
 
-def impl_single(case):
-    script = oracles.Script([("shuffle", list(pi)) for pi in case["pis"]])
-    return run_real(case, script)
+def run_real(case, script, patched=False):
+    """one run of the real generator on a fresh object under `script`; exceptions propagate"""
+    return Runner(case).step(case["jds"], script, patched, case.get("rows", "tuple"))
+
+
+class FreeOracle:
+    """primitive-agnostic fallback: answers ANY random entry point from a private seeded generator and logs what was
+    asked.  Used when the implementation does not follow the shuffle protocol: its outputs are still judged by the
+    verified checkers (the property does not care which primitive is used); the mismatch itself is a correspondence
+    failure only."""
+
+    def __init__(self, seed):
+        self.rng = _random.Random(seed)
+        self.log = []
+        self.answers = []
+        self.pos = 0
+        self.asked = []
+
+    def shuffle(self, x):
+        perm = list(range(len(x)))
+        self.rng.shuffle(perm)
+        self.log.append(("shuffle", list(x), perm))
+        self.asked.append("shuffle")
+        old = list(x)
+        for i, p in enumerate(perm):
+            x[i] = old[p]
+
+    def randrange(self, a, b=None, step=1):
+        self.asked.append("randrange")
+        return self.rng.randrange(a, b, step) if b is not None else self.rng.randrange(a)
+
+    def randint(self, a, b):
+        self.asked.append("randint")
+        return self.rng.randint(a, b)
+
+    def choice(self, seq):
+        self.asked.append("choice")
+        return self.rng.choice(seq)
+
+    def sample(self, population, k):
+        self.asked.append("sample")
+        return self.rng.sample(list(population), k)
+
+    def random(self):
+        self.asked.append("random")
+        return self.rng.random()
+
+    def choices(self, population, weights=None, *, cum_weights=None, k=1):
+        self.asked.append("choices")
+        return self.rng.choices(population, weights, cum_weights=cum_weights, k=k)
+
+    def seed(self, *a, **k):
+        self.asked.append("seed")
+
+
+@contextlib.contextmanager
+def free_scripted(oracle):
+    import gcmpy.gcm_algorithm  # noqa: F401
+    import gcmpy.network  # noqa: F401
+    names = ["shuffle", "choice", "randrange", "randint", "random", "choices", "sample", "seed"]
+    saved = {n: getattr(_random, n) for n in names}
+    for n in names:
+        setattr(_random, n, getattr(oracle, n))
+    try:
+        yield oracle
+    finally:
+        for n, v in saved.items():
+            setattr(_random, n, v)
+
+
+def steps_of(case):
+    if "steps" in case:
+        return [dict(case, jds=st["jds"], pis=st["pis"]) for st in case["steps"]]
+    return [case]
+
+
+def impl_case(case):
+    """all steps of the case on ONE algorithm object and ONE jds list; returns {'steps': [obs...]}.
+    If the implementation leaves the shuffle protocol, the case is re-run under the primitive-agnostic oracle and the
+    observation carries 'protocol' (reported by compare; the checkers still judge the outputs)."""
+    import zlib
+    steps = steps_of(case)
+    try:
+        r = Runner(case)
+        out = []
+        for st in steps:
+            script = oracles.Script([("shuffle", list(pi)) for pi in st["pis"]])
+            out.append(r.step(st["jds"], script, False, case.get("rows", "tuple")))
+        return {"steps": out}
+    except oracles.OracleProtocol as e:
+        msg = "%s: %s" % (type(e).__name__, e)
+    r = Runner(case)
+    out = []
+    for i, st in enumerate(steps):
+        orc = FreeOracle(zlib.crc32(repr((case.get("tag"), st["jds"], i)).encode()))
+        with free_scripted(orc):
+            o = r.step(st["jds"], orc, True, case.get("rows", "tuple"))
+        o["protocol"] = msg + " (asked: %s)" % ",".join(orc.asked[:6])
+        out.append(o)
+    return {"steps": out}
 
 
 # ------------------------------------------------------------------ model side
@@ -282,6 +428,8 @@ def compare_run(case, impl, model):
         if is_exc(impl) and is_exc(model):
             return None if impl[1] == model[1] else "exception class: impl %s model %s" % (impl[1], model[1])
         return "impl %s vs model %s" % (impl if is_exc(impl) else "returned", model if is_exc(model) else "returned")
+    if impl.get("protocol"):
+        return "oracle protocol: " + impl["protocol"]
     # oracle protocol: one shuffle per topology, each on that topology's full stub list
     sh = [s[0] for s in impl["shuffles"]]
     if sh != model["stubs"]:
@@ -293,7 +441,7 @@ def compare_run(case, impl, model):
     if impl["jds_out"] != model["jds_out"]:
         return "joint_degrees: impl %r model %r" % (impl["jds_out"], model["jds_out"])
     if not impl["input_jds_intact"]:
-        return "the caller's jds was mutated"
+        return "the caller's jds / the algorithm's configuration was mutated by the call"
     if case["tag"] == NETWORK:
         want = sorted(set(norm_pair(e) for e in model["edges"]))
         got = sorted((e[0], e[1]) for e in impl["net_edges"])
@@ -317,12 +465,12 @@ def compare_run(case, impl, model):
 # ------------------------------------------------------------------ checker inputs
 def verts_seen(case, impl):
     if case["tag"] == NETWORK:
-        return [v if isinstance(v, int) and v >= 0 else 10**9 for v in impl["nodes"]]
+        return [v if isinstance(v, int) and v >= 0 else BAD for v in impl["nodes"]]
     out = []
 
     def walk(t):
         if isinstance(t, int):
-            out.append(t if t >= 0 else 10**9)
+            out.append(t if t >= 0 else BAD)
         else:
             for y in t:
                 walk(y)
@@ -330,21 +478,32 @@ def verts_seen(case, impl):
     return out
 
 
+def clamp(t, neg=BAD):
+    """every int outside 0..NAT_MAX becomes a sentinel (negative ones `neg`)"""
+    if isinstance(t, bool):
+        return int(t)
+    if isinstance(t, int):
+        if t < 0:
+            return neg
+        return t if t <= NAT_MAX else BAD
+    return [clamp(x, neg) for x in t]
+
+
 def c01_check_tree(case, impl):
     if is_exc(impl):
         return [case["tag"], case["jds"], case["sizes"], case.get("mis", []), [], case["jds"], []]
-    calls = [[j, [v if isinstance(v, int) and v >= 0 else 10**9 for v in args]] for j, args in impl["calls"]]
+    calls = [[j, [v if isinstance(v, int) and v >= 0 else BAD for v in args]] for j, args in impl["calls"]]
     jo = impl["jds_out"]
     ok_shape = isinstance(jo, list) and all(isinstance(r, list) and all(isinstance(x, int) and x >= 0 for x in r) for r in jo)
-    return [case["tag"], case["jds"], case["sizes"], case.get("mis", []), calls,
-            jo if ok_shape else [[10**9]], verts_seen(case, impl)]
+    return clamp([case["tag"], case["jds"], case["sizes"], case.get("mis", []), calls,
+                  jo if ok_shape else [[BAD]], verts_seen(case, impl)])
 
 
 def results_tree(impl):
     rs = []
     for j, sh in impl["results"]:
         if sh is None or sh[0] == 2:
-            rs.append([j, [0, [[10**9, 10**9]]]])     # unrecognised result: cannot match any row
+            rs.append([j, [0, [[BAD, BAD]]]])     # unrecognised result: cannot match any row
         elif sh[0] == 1:
             rs.append([j, [1, sh[1], sh[2]]])
         else:
@@ -366,17 +525,17 @@ def c02_check_tree(case, impl):
         attr = {(u, v): (nm, i) for u, v, nm, i in impl["net_edges"]}
         if set(attr) != set(pairs):
             ce = [0] * (len(attr) + 1)      # edge set differs from the callbacks' edges: not a column of pairs
-            return [0, case["names"], results_tree(impl), ce, [0] * len(ce), [0] * len(ce)]
+            return clamp([0, case["names"], results_tree(impl), ce, [0] * len(ce), [0] * len(ce)])
         ce, cn, ci = [], [], []
         for j, sh in impl["results"]:
             for e in sh[1]:
                 nm, i = attr[norm_pair(e)]
                 ce.append(list(e))
                 cn.append(nm)
-                ci.append(i if isinstance(i, int) and i >= 0 else 10**9)
-        return [0, case["names"], results_tree(impl), ce, cn, ci]
-    ids = [i if isinstance(i, int) and i >= 0 else 10**9 for i in impl["ids"]]
-    return [tag, case["names"], results_tree(impl), impl["edges"], impl["names"], ids]
+                ci.append(i if isinstance(i, int) and i >= 0 else BAD)
+        return clamp([0, case["names"], results_tree(impl), ce, cn, ci])
+    ids = [i if isinstance(i, int) and i >= 0 else BAD for i in impl["ids"]]
+    return [tag] + clamp([case["names"], results_tree(impl)]) + [clamp(impl["edges"], neg=-1)] + clamp([impl["names"], ids])
 
 
 def config_total(case):
@@ -411,6 +570,62 @@ def config_total(case):
         if len(names[k]) < 1:
             return False
     return True
+
+
+# ------------------------------------------------------------------ case level (single run or history)
+def model_calls_case(entry, case):
+    return [(entry, model_tree(st)) for st in steps_of(case)]
+
+
+def model_obs_case(raws):
+    return [decode_run(r) for r in raws]
+
+
+def compare_case(case, impl, model):
+    steps = steps_of(case)
+    if is_exc(impl):
+        if len(steps) == 1:
+            return compare_run(case, impl, model[0])
+        errs = [m for m in model if is_exc(m)]
+        if errs and errs[0][1] == impl[1]:
+            return None
+        return "history: implementation raised %s, model %r" % (impl[1], errs[:1] or "returned")
+    for i, (st, o, m) in enumerate(zip(steps, impl["steps"], model)):
+        d = compare_run(st, o, m)
+        if d:
+            return d if len(steps) == 1 else "step %d of %d on the same object: %s" % (i, len(steps), d)
+    return None
+
+
+def history_case(rng, tag):
+    """2-3 generations on the SAME algorithm object and the SAME jds list (contents replaced in place, the object
+    returned before is damaged by the caller in between); identical repeats included"""
+    c = random_valid_case(rng, tag, maxN=7, maxT=3, maxsize=4, maxdeg=2)
+    T = len(c["sizes"])
+    steps = [{"jds": c["jds"], "pis": c["pis"]}]
+    for _ in range(rng.randint(1, 2)):
+        r = rng.random()
+        if r < 0.3:
+            prev = steps[-1]
+            steps.append({"jds": [list(x) for x in prev["jds"]], "pis": [list(p) for p in prev["pis"]]})
+            continue
+        N = rng.randint(1, 7)
+        jds = [[0] * T for _ in range(N)]
+        mis = c["mis"] if tag == MOTIFS else [[k] for k in range(T)]
+        for idxs in mis:
+            count = rng.randint(0, 3)
+            for i in idxs:
+                for _ in range(count * c["sizes"][i]):
+                    jds[rng.randrange(N)][i] += 1
+        pis = []
+        for k in range(T):
+            p = list(range(sum(row[k] for row in jds)))
+            rng.shuffle(p)
+            pis.append(p)
+        steps.append({"jds": jds, "pis": pis})
+    c["steps"] = steps
+    c["rows"] = rng.choice(["tuple", "list"])
+    return c
 
 
 # ------------------------------------------------------------------ generators
@@ -648,6 +863,16 @@ def common_corpus():
 
 def shrink_case(case):
     """smaller cases: drop a vertex, lower an entry, identity permutations"""
+    if "steps" in case:
+        st = case["steps"]
+        if len(st) > 1:
+            for i in range(len(st)):
+                yield dict(case, steps=st[:i] + st[i + 1:])
+        else:
+            c = {k: v for k, v in case.items() if k != "steps"}
+            c["jds"], c["pis"] = st[0]["jds"], st[0]["pis"]
+            yield c
+        return
     jds = case["jds"]
 
     def with_jds(j2):
@@ -675,8 +900,12 @@ def shrink_case(case):
 def describe_case(case, impl):
     d = {"generator": TAGNAME[case["tag"]], "via": case.get("via"), "jds": case["jds"][:8], "sizes": case["sizes"],
          "builders": [BUILDER_NAMES[c] for c in case["codes"]], "motif_indices": case.get("mis")}
-    if isinstance(impl, dict):
-        d["calls"] = impl["calls"][:6]
+    if "steps" in case:
+        d["history_steps_on_one_object"] = len(case["steps"])
+    if isinstance(impl, dict) and "steps" in impl:
+        d["calls"] = impl["steps"][0]["calls"][:6]
+    elif isinstance(impl, dict):
+        d["calls"] = impl.get("calls", [])[:6]
     else:
         d["impl"] = impl
     return d
@@ -693,6 +922,9 @@ def histo(cases):
         h[k] = h.get(k, 0) + 1
         if "kind" in c:
             k = "malformed_" + c["kind"]
+            h[k] = h.get(k, 0) + 1
+        if "steps" in c:
+            k = "history_%d_steps" % len(c["steps"])
             h[k] = h.get(k, 0) + 1
         for code in c["codes"]:
             k = "builder_" + BUILDER_NAMES[code]
